@@ -22,6 +22,9 @@ Invariant (assumed in the pre-state of every entry, proved in every post-state, 
      a path that leaves W >= 1 adds nothing; AwaitLockShared returns false iff it consumed one credit and returns
      true iff it queued the caller
   U  no counter is decremented below zero, no pop from an empty list
+  R  reader exit / first-writer arming: UnlockHereShared removes one reader, touches _readers_wait only when a writer
+     is registered (fetch_sub(1), once) and resumes _writers_first exactly when that returned 1; the first writer
+     arms _readers_wait with exactly R, and does not suspend when R == 0
 
 The code is walked path by path (pathwalk) with inlining of the private helpers; pointer values into the writers
 list are abstract (`n1`, `n2` = first/second node, `popped`, `curr`, `head`, `first`, `tail`).  Anything the abstract
@@ -417,6 +420,7 @@ class InvWalker(pathwalk.Walker):
             g = self.gw(st)
             a = self.ev(fn, args[0], st) if args else UNKNOWN
             g.rw.append((last, a, loc))
+            st.data[('rwcall', st.depth, n['i'])] = last
             return UNKNOWN
         if f == '_readers' and last in ('PushBack', 'PushFront'):
             g = self.gw(st)
@@ -597,6 +601,14 @@ class InvWalker(pathwalk.Walker):
         if cas is not None:
             self.resolve_cas(g, st, cas, truth)
             return
+        if c['k'] == 'BinaryOperator' and c.get('op') in ('==', '!='):
+            # outcome of a _readers_wait read-modify-write compared with a constant (the "I am the last reader" test)
+            for x, y in ((c['ch'][0], c['ch'][1]), (c['ch'][1], c['ch'][0])):
+                j = fn.resolve(x)
+                if j is not None and st.data.get(('rwcall', st.depth, j)) is not None:
+                    other = self.ev(fn, y, st)
+                    g.rw.append(('cmp', st.data[('rwcall', st.depth, j)], other, truth == (c['op'] == '==')))
+                    return
         conj = self.cond(fn, c['i'], st)
         if conj is None:
             return
@@ -777,6 +789,15 @@ def check_post(walker, g, entry, rv, fifo):
         if f0.prove_eq0(pre['W']):
             if g.first != 'curr':
                 bad.append(('N', 'the first writer is not stored in _writers_first: the last reader cannot resume it'))
+            arm = [x for x in g.rw if x[0] == 'fetch_add']
+            if f0.prove_eq0(pre['R']):
+                if arm or not (rv is not None and rv[0] == 'c' and not rv[1]):
+                    bad.append(('R', 'the first writer found no reader (R == 0) and must take the lock without '
+                                'suspending and without arming _readers_wait: nobody would resume it'))
+            elif f0.prove_ge0(pre['R'] - 1):
+                if len(arm) != 1 or lin_of(arm[0][1]) is None or not f0.prove_eq0(lin_of(arm[0][1]) - pre['R']):
+                    bad.append(('R', 'the first writer must arm _readers_wait with exactly the number of readers it '
+                                'found registered (R), once'))
         else:
             if not g.curr_null:
                 bad.append(('T', 'the appended node\'s next is not cleared'))
@@ -793,6 +814,26 @@ def check_post(walker, g, entry, rv, fifo):
         if entry in ('TryLockShared', 'TryLockSharedAwait', 'UnlockHereShared'):
             if not f0.prove_eq0(v['W'] - pre['W']):
                 bad.append(('A', '%s changes the writer half of _state' % entry))
+        if entry == 'UnlockHereShared':
+            if not f0.prove_eq0(v['R'] - pre['R'] + 1):
+                bad.append(('R', 'a shared unlock must remove exactly one reader from _state'))
+            subs = [x for x in g.rw if x[0] == 'fetch_sub']
+            cmps = [x for x in g.rw if x[0] == 'cmp' and x[1] == 'fetch_sub']
+            runs = [r for r in g.runs if r[0] == 'first']
+            if f0.prove_eq0(pre['W']):
+                if g.rw or g.runs:
+                    bad.append(('R', 'no writer is registered, yet the leaving reader touches _readers_wait / resumes '
+                                'somebody'))
+            elif f0.prove_ge0(pre['W'] - 1):
+                if len(subs) != 1 or lin_of(subs[0][1]) is None or not f0.prove_eq0(lin_of(subs[0][1]) - 1):
+                    bad.append(('R', 'a reader that leaves while a writer is registered must count itself out of '
+                                '_readers_wait exactly once (fetch_sub(1))'))
+                else:
+                    last = bool(cmps) and lin_of(cmps[-1][2]) is not None and \
+                        f0.prove_eq0(lin_of(cmps[-1][2]) - 1) and cmps[-1][3]
+                    if bool(runs) != bool(last) or len(g.runs) != len(runs):
+                        bad.append(('R', 'the armed first writer must be resumed exactly by the reader whose '
+                                    'fetch_sub(1) returned 1 (the last one), and nobody else'))
     return bad
 
 
